@@ -537,7 +537,8 @@ def mon_c17(sc, controller, outcome):
                 vio.append({"law": "an event at or after until is ignored with a warning", "request": req, "stepped": bool(later), "warned": ignored})
         elif outcome == "finished" and not later:
             vio.append({"law": "set_event(t) for a future t < until causes a step at t", "request": req, "outcome": outcome})
-    if outcome.startswith("failed AssertionError") and not past_event:
+    # (an AssertionError raised by the min-delay closures before the first step is not a real-time matter: finding D7, judged under C05/C06)
+    if outcome.startswith("failed AssertionError") and not outcome.startswith("failed AssertionError closure") and not past_event:
         vio.append({"law": "a real-time run with compliant simulators completes without internal error", "outcome": outcome})
     if outcome == "deadlock":
         vio.append({"law": "real-time run hangs", "outcome": outcome})
